@@ -22,8 +22,8 @@ func init() {
 			"`pair.Revision != \"\"`; Client.Delete's revision is a read pair's Revision; Revision/UID/Key of a pair are never assigned outside a literal; (noapply) Client.Apply (which ignores revisions) is only called with a literal IPAMConfigKey pair; " +
 			"(errchk) on the error edge of every datastore write (or, if the error is dropped, on the continuation) no `return …, nil` is reachable without re-executing the read that produced the pair, retrying a write of the same pair, or the error being " +
 			"AlreadyExists for Create / DoesNotExist for Delete; (handle) wherever incrementHandle is called, the block write cannot be reached without it when a handle is given, and on the block write's error edge every path to a return or to a " +
-			"re-increment passes decrementHandle.",
-		NotDecided: "Interleavings themselves (that CAS on revision linearises writers is the datastore's contract); the arithmetic inside allocationBlock.autoAssign/assign/release; that callers of exported entry points taking a pair " +
+			"re-increment passes decrementHandle, and the compensating decrementHandle is called with the same handle id, block CIDR and count (same SSA value, equal constants or the same pure access path) as every incrementHandle that reaches that block write.",
+		NotDecided: "Interleavings themselves (that CAS on revision linearises writers is the datastore's contract); the arithmetic inside allocationBlock.autoAssign/assign/release — in particular that an ordinal stored into Allocations is removed from the Unallocated queue wherever it sits (an off-by-one in the guard of assign's removal, e.g. `slices.Index(...) > 0`, is not detected: deciding it needs search-sentinel / loop-exhaustion reasoning about slice contents, one recogniser per coding idiom); that the count passed to incrementHandle equals the number of addresses the block write records (today it is the number requested: the handle may over-count); that callers of exported entry points taking a pair " +
 			"(GarbageCollectColdIPs) pass a pair they read; crash windows between the handle write and the block write (handle may over-count); failures of composite clean-ups after a committed block write " +
 			"(decrementHandle, ensureConsistentAffinity in the release paths are only logged: the address is already released).",
 		Assumptions: []string{
@@ -61,6 +61,12 @@ func init() {
 				Old: "\tif handleID != nil {\n\t\tlogCtx.Debug(\"Incrementing handle\")", New: "\tif handleID != nil && num > 1 {\n\t\tlogCtx.Debug(\"Incrementing handle\")", Expect: "C19.handle/ipamClient.assignFromExistingBlock/increment-before-write"},
 			{Name: "no handle rollback after failed block write", File: "libcalico-go/lib/ipam/ipam.go",
 				Old: "\t\tif handleID != nil {\n\t\t\tlogCtx.Debug(\"Decrementing handle since we failed to allocate IP(s)\")", New: "\t\tif handleID != nil && num > 1 {\n\t\t\tlogCtx.Debug(\"Decrementing handle since we failed to allocate IP(s)\")", Expect: "C19.handle/ipamClient.assignFromExistingBlock/rollback"},
+			{Name: "handle incremented by the addresses obtained, rolled back by the number requested", File: "libcalico-go/lib/ipam/ipam.go",
+				Old: "err := c.incrementHandle(ctx, *handleID, blockCIDR, num, maxAlloc)", New: "err := c.incrementHandle(ctx, *handleID, blockCIDR, len(ips), maxAlloc)", Expect: "C19.handle/ipamClient.assignFromExistingBlock/rollback-mirror"},
+			{Name: "rollback subtracts the addresses obtained, increment added the number requested", File: "libcalico-go/lib/ipam/ipam.go",
+				Old: "c.decrementHandle(cleanupCtx, *handleID, blockCIDR, num, nil)", New: "c.decrementHandle(cleanupCtx, *handleID, blockCIDR, len(ips), nil)", Expect: "C19.handle/ipamClient.assignFromExistingBlock/rollback-mirror"},
+			{Name: "AssignIP rolls the handle back under the address's /32 instead of the block it incremented", File: "libcalico-go/lib/ipam/ipam.go",
+				Old: "c.decrementHandle(cleanupCtx, *args.HandleID, blockCIDR, 1, nil)", New: "c.decrementHandle(cleanupCtx, *args.HandleID, *args.IP.Network(), 1, nil)", Expect: "C19.handle/ipamClient.AssignIP/rollback-mirror"},
 		},
 	})
 }
@@ -107,7 +113,7 @@ func runC19(c *Ctx) {
 	c.Rule("C19.cas", "E-FLOW", "every pair reaching Client.Update/DeleteKVP (through any forwarding helper) is a datastore result, nil, or a literal with Revision(/UID) copied from one; Client.Delete's revision comes from a read pair; identity fields of pairs are never reassigned", 51)
 	c.Rule("C19.noapply", "E-OWN", "Client.Apply (revision-blind) is only called with a literal pair whose key is not a block/affinity/handle key", 1)
 	c.Rule("C19.errchk", "E-ERR", "error edge (or dropped-error continuation) of every datastore write reaches no `return …, nil` without re-read / same-pair retry / AlreadyExists(Create) / DoesNotExist(Delete)", 38)
-	c.Rule("C19.handle", "E-ORDER", "incrementHandle precedes the block write when a handle is given; on the block write's error edge decrementHandle precedes every return and every re-increment", 4)
+	c.Rule("C19.handle", "E-ORDER", "incrementHandle precedes the block write when a handle is given; on the block write's error edge decrementHandle precedes every return and every re-increment, and that decrementHandle passes the same handle, block and count as the incrementHandle it undoes", 6)
 	c19Cas(c, m)
 	c19NoApply(c, m)
 	c19ErrChk(c, m)
@@ -594,6 +600,33 @@ func c19Handle(c *Ctx, m *c19Model) {
 		})
 		return out
 	}
+	// parameters that incrementHandle and decrementHandle share (same name, same type):
+	// what a compensating decrement must pass unchanged.  The context is excluded
+	// (the rollback legitimately runs under a clean-up context).
+	type mirrorParam struct {
+		name     string
+		inc, dec int
+	}
+	var mirror []mirrorParam
+	var mirrorNames []string
+	hasInt := false
+	for i, ip := range inc.Params {
+		if i == 0 || qualTypeName(ip.Type()) == "context.Context" {
+			continue
+		}
+		for j, dp := range dec.Params {
+			if j > 0 && dp.Name() == ip.Name() && types.Identical(dp.Type(), ip.Type()) {
+				mirror = append(mirror, mirrorParam{ip.Name(), i, j})
+				mirrorNames = append(mirrorNames, ip.Name())
+				if b, ok := ip.Type().Underlying().(*types.Basic); ok && b.Info()&types.IsInteger != 0 {
+					hasInt = true
+				}
+			}
+		}
+	}
+	if len(mirror) < 3 || !hasInt {
+		c.Lost("incrementHandle/decrementHandle no longer share (handle, block, count) parameters by name and type: found %v", mirrorNames)
+	}
 	n := 0
 	for _, f := range m.funcs {
 		incs := callsTo(f, inc)
@@ -653,6 +686,37 @@ func c19Handle(c *Ctx, m *c19Model) {
 				c.Violate("C19.handle/"+fnName(f)+"/rollback", p.Pos(u.Pos()), "in %s, after incrementHandle a failed updateBlock reaches %s without decrementHandle: the handle counts an address the block does not hold", fnName(f), strings.Join(bad, "; "))
 			} else {
 				c.Ok("C19.handle/"+fnName(f)+"/rollback", p.Pos(u.Pos()), "every path from the failed updateBlock to a return or a re-increment passes decrementHandle")
+			}
+			// (3) the rollback mirrors the increment: every decrementHandle that is the first one
+			// reached on the error edge undoes exactly what the incrementHandle(s) that reach
+			// this block write did — same handle, same block, same count.
+			_, rollbacks := c19Forward(starts, func(in ssa.Instruction) bool { return isDec(in) || isInc(in) }, corr, isDec)
+			var mism []string
+			npairs := 0
+			for _, d := range rollbacks {
+				dc := d.(*ssa.Call)
+				for _, ic := range incs {
+					if !instrReaches(ic, u) {
+						continue
+					}
+					npairs++
+					for _, mp := range mirror {
+						ia, da := ic.Common().Args[mp.inc], dc.Common().Args[mp.dec]
+						if !c19SameValue(ia, da) {
+							mism = append(mism, fmt.Sprintf("%s: incrementHandle(%s) at %s but decrementHandle(%s) at %s", mp.name, path(ia), p.Pos(ic.Pos()), path(da), p.Pos(dc.Pos())))
+						}
+					}
+				}
+			}
+			sort.Strings(mism)
+			switch {
+			case len(mism) > 0:
+				c.Violate("C19.handle/"+fnName(f)+"/rollback-mirror", p.Pos(u.Pos()), "in %s the decrementHandle that compensates a failed updateBlock does not undo what incrementHandle did (%s): after a failed block write the handle's count for the block differs from what it was before the attempt", fnName(f), strings.Join(mism, "; "))
+			case npairs == 0:
+				// nothing to compare: already reported by (2) as a missing rollback
+				c.Ok("C19.handle/"+fnName(f)+"/rollback-mirror", p.Pos(u.Pos()), "no decrementHandle on the error edge to compare (see rollback)")
+			default:
+				c.Ok("C19.handle/"+fnName(f)+"/rollback-mirror", p.Pos(u.Pos()), "%d increment/rollback pair(s) pass identical %s", npairs, strings.Join(mirrorNames, ", "))
 			}
 		}
 	}
